@@ -32,6 +32,10 @@ type Config struct {
 
 	ResumeClass string // skip everything up to and including this case
 	ResumeIndex int
+
+	FromClass string // skip everything before this case (it runs): the point a checkpoint covers up to
+	FromIndex int
+	Skip      map[string]bool // "class#index" of cases a worker died in: not run again
 }
 
 // Violation is a refuting observation.
@@ -67,6 +71,9 @@ type Result struct {
 	Hashes     []uint64               `json:"hashes"`
 	Notes      []string               `json:"notes,omitempty"`
 	Done       bool                   `json:"done"`
+	// NextClass / NextIndex (checkpoints only): the case that was about to begin; everything before it is in here
+	NextClass string `json:"next_class,omitempty"`
+	NextIndex int    `json:"next_index,omitempty"`
 }
 
 // Ctx is handed to a property's Run function.
@@ -77,6 +84,8 @@ type Ctx struct {
 	hashes   map[uint64]struct{}
 	log      *os.File
 	resuming bool
+	fromWait bool
+	lastCkpt time.Time
 	perClass map[string]int // samples per class
 	lastCls  string
 	lastT    time.Time
@@ -96,6 +105,8 @@ func NewCtx(cfg Config) *Ctx {
 	c.res.Classes = map[string]*ClassStats{}
 	c.res.Counters = map[string]int64{}
 	c.resuming = cfg.ResumeClass != ""
+	c.fromWait = cfg.FromClass != ""
+	c.lastCkpt = time.Now()
 	if cfg.OutDir != "" {
 		f, err := os.OpenFile(filepath.Join(cfg.OutDir, fmt.Sprintf("shard-%d.log", cfg.Shard)), os.O_CREATE|os.O_WRONLY|os.O_APPEND, 0644)
 		if err == nil {
@@ -156,11 +167,38 @@ func (c *Ctx) Begin(class string, k int) *Case {
 		}
 		return nil
 	}
+	if c.fromWait {
+		if class != c.FromClass || k != c.FromIndex {
+			return nil
+		}
+		c.fromWait = false
+	}
+	if c.Skip[fmt.Sprintf("%s#%d", class, k)] {
+		return nil
+	}
 	c.mu.Lock()
 	st := c.res.Classes[class]
 	if st == nil {
 		st = &ClassStats{Outcomes: map[string]int{}}
 		c.res.Classes[class] = st
+	}
+	// before the case is counted: what was observed so far is written out now and then, so that a worker that dies
+	// in a later case does not take the earlier cases' observations with it
+	if c.OutDir != "" && c.log != nil && time.Since(c.lastCkpt) > 2*time.Second {
+		c.lastCkpt = time.Now()
+		c.res.Hashes = c.res.Hashes[:0]
+		for h := range c.hashes {
+			c.res.Hashes = append(c.res.Hashes, h)
+		}
+		c.res.NextClass, c.res.NextIndex = class, k
+		if b, err := json.Marshal(&c.res); err == nil {
+			tmp := filepath.Join(c.OutDir, fmt.Sprintf("shard-%d.ckpt.tmp", c.Shard))
+			if os.WriteFile(tmp, b, 0644) == nil {
+				os.Rename(tmp, filepath.Join(c.OutDir, fmt.Sprintf("shard-%d.ckpt", c.Shard)))
+			}
+		}
+		c.res.Hashes = c.res.Hashes[:0]
+		c.res.NextClass, c.res.NextIndex = "", 0
 	}
 	st.Cases++
 	c.tick(class)
